@@ -216,6 +216,12 @@ def posterior_valid_and_bayes(model, stream, obs, emb, init, num_classes, seed, 
             cond = max(cond, 1.0 + float(np.max(np.abs(m.complex_bingham.covariance_eigenvalues))))
         tol = min(1e-3, (2e-5 if single else 1e-9) * max(1.0, cond if np.isfinite(cond) else 1e10))
         err = np.abs(g - want)
+        # a posterior is a function of log-pdf DIFFERENCES; where the log-pdfs of a column are so large (a given
+        # covariance against observations of magnitude 1e140) that their spacing exceeds the tolerance, those differences
+        # are rounding noise in any evaluation order: such columns are not judged
+        coarse = np.max(np.abs(lp), axis=-2, keepdims=True) * 2.3e-16 > tol
+        if coarse.any():
+            err = np.where(np.broadcast_to(coarse, err.shape), 0.0, err)
         if err.max() > tol:
             i = np.unravel_index(np.argmax(err), err.shape)
             return Fail('posterior-differs-from-bayes-rule',
